@@ -87,7 +87,7 @@ def render_stmts(name, b, ind):
     for s in b:
         k = s[0]
         if k == "P":
-            L.append(ind + "println(\"%s\", %d, x, y);\n" % (name, s[1]))
+            L.append(ind + "println(%s, %d, x, y);\n" % (name if name == "nm" else '"%s"' % name, s[1]))
         elif k == "A":
             L.append(ind + s[1] + ";\n")
         elif k == "Y":
@@ -153,7 +153,24 @@ def run_alone(name, b, p):
     return out, env["x"]
 
 
-def gen_case(r, feature):
+def gen_case(r, feature, shared=False):
+    if shared:
+        # 2-3 tasks of the SAME async function (their label is a parameter): locals, loop state and resume positions must
+        # not be shared between two tasks running the same code
+        nt = r.range(2, 3)
+        body = Gen(r, feature, "nm").body()
+        tasks = [("ABC"[i], body, r.range(-5, 9)) for i in range(nt)]
+        order = list(range(nt))
+        for i in range(nt - 1, 0, -1):
+            j = r.below(i + 1)
+            order[i], order[j] = order[j], order[i]
+        src = "async int tS(string nm, int p) {\n    int x = p;\n    int y = 1;\n%s    return x;\n}\n" % render_stmts("nm", body, "    ")
+        main = "int main() {\n" + "".join("    Future<int> f%s = tS(\"%s\", %d);\n" % (n, n, p) for n, b, p in tasks)
+        for i in order:
+            n = tasks[i][0]
+            main += "    int r%s = await f%s;\n    println(\"R%s\", r%s);\n" % (n, n, n, n)
+        main += "    println(\"END\");\n    return 0;\n}\n"
+        return tasks, order, src + main
     nt = r.range(1, 3)
     tasks = []
     for i in range(nt):
@@ -246,8 +263,8 @@ def main(a):
     cases = []
     per = 8 if quick else 1500
     for feat in FEATURES:
-        for _ in range(per):
-            cases.append((feat,) + gen_case(r, feat))
+        for k in range(per):
+            cases.append((feat,) + gen_case(r, feat, shared=(k % 3 == 2)))
     outs = common.run_programs(exe, [c[3] for c in cases], timeout=6)
     dist["structured"] = len(cases)
     for (feat, tasks, order, src), o in zip(cases, outs):
